@@ -50,6 +50,16 @@ func ReadPosting(p segment.Posting, freq, norm, locs bool) model.PostObs {
 			po.Locs = append(po.Locs, model.LocObs{F: l.Field(), P: l.Pos(), S: l.Start(), E: l.End()})
 		}
 	}
+	// Real callers renumber the posting they were handed (Bluge adds the
+	// segment's base to make a global document number): the posting belongs to
+	// the caller until the next call, and what the caller writes into it must not
+	// steer the iterator.
+	switch po.Doc % 3 {
+	case 0:
+		p.SetNumber(po.Doc + 1<<33)
+	case 1:
+		p.SetNumber(0)
+	}
 	return po
 }
 
